@@ -199,18 +199,21 @@ def finishOpt (argv : List Str) (s : St) (os : Str) : M (Ret × St) := do
       let c ← rd os e.olen
       pure (.os e.os, if c == eqc then { s with optFound := s.optDefault } else s)
 
-def getopt (argv : List Str) (s0 : St) : M (Ret × St) := do
+/-- `getopt` from "If we're not already in the middle of a packed single-character options" on -/
+def getoptBody (argv : List Str) (s : St) : M (Ret × St) := do
+  let s ← startPack argv s
+  let (os?, s) ← takePacked argv s
+  let (os?, s) ← dashDash argv s os?
+  match os? with
+  | none => pure (.null, s)
+  | some os => finishOpt argv s os
+
+def getopt (argv : List Str) (s0 : St) : M (Ret × St) :=
   let s := { s0 with optarg := none }
   let s := if s.optreset then reset argv s else s
   if !s.initialized then pure (.dummy, s)
   else if s.optind ≥ argv.length then pure (.null, s)
-  else
-    let s ← startPack argv s
-    let (os?, s) ← takePacked argv s
-    let (os?, s) ← dashDash argv s os?
-    match os? with
-    | none => pure (.null, s)
-    | some os => finishOpt argv s os
+  else getoptBody argv s
 
 /-! ## `getopt_lookup`, registration -/
 
